@@ -192,6 +192,11 @@ func genC10(t *rapid.T) C10Case {
 		BatchCount: rapid.IntRange(1, 5).Draw(t, "batch_count"),
 		FlushMs:    rapid.SampledFrom([]int{1, 5, 20}).Draw(t, "flush"),
 	}
+	// a batch larger than the pool never fills: every round then waits for the Batcher's 100 ms heartbeat;
+	// keep such configurations, but rare
+	if c.Output.BatchCount > c.Capacity && rapid.IntRange(0, 4).Draw(t, "keep_big_batch") > 0 {
+		c.Output.BatchCount = c.Capacity
+	}
 	ns := rapid.IntRange(0, 10).Draw(t, "nsends")
 	for k := 0; k < ns; k++ {
 		s := C10Send{WaitFor: -1}
